@@ -6,6 +6,7 @@ import IpcHub.Lemmas.Media5
 import IpcHub.Lemmas.MediaCache2
 import IpcHub.Model.MediaInst
 import IpcHub.Props.C01
+import IpcHub.Model.FlvCacheM
 namespace IpcHub.Props.C02
 open IpcHub.Media
 open IpcHub.Props.C01 (subseq countOf)
@@ -109,6 +110,29 @@ theorem c02_stap_sps_idr_not_key :
     pktKind genConsts false stap = .sps ∧
     ((packAll genConsts { hevc := false, cacheGop := true } [stap]).gop = []) := by
   decide
+
+/-- FLV variant: whatever tags were written, a joining FLV consumer is first given the cached
+    metadata, video and audio sequence headers (in that order, those that exist), every one of them
+    presented with the timestamp of the first replayed media tag (0 when the GOP part is empty) and
+    otherwise unchanged, followed by the cached GOP; the cached tags themselves are not modified
+    (`pushTo` is a function of the cache; the model hands out re-stamped copies — the source fact
+    that PushTo assigns to local copies is part of c01_source_facts / c02_source_facts). -/
+theorem c02_flv_replay (gop : Bool) (tags : List IpcHub.FlvCacheM.FTag) :
+    let c := IpcHub.FlvCacheM.cacheAfter gop tags
+    c.pushTo = c.headers ++ c.gop ∧
+    (∀ t ∈ c.headers, t.ts = c.initTs) ∧
+    c.headers.map (fun t => (t.uid, t.tagType, t.data))
+      = (c.mdata.toList ++ c.vseq.toList ++ c.aseq.toList).map (fun t => (t.uid, t.tagType, t.data)) ∧
+    (c.gop = [] → c.initTs = 0) ∧ (∀ t rest, c.gop = t :: rest → c.initTs = t.ts) := by
+  intro c
+  refine ⟨rfl, ?_, ?_, ?_, ?_⟩
+  · intro t ht
+    simp only [IpcHub.FlvCacheM.FCache.headers, List.mem_map] at ht
+    obtain ⟨t', _, rfl⟩ := ht
+    rfl
+  · simp [IpcHub.FlvCacheM.FCache.headers, IpcHub.FlvCacheM.restamp, List.map_map, Function.comp_def]
+  · intro h; simp [IpcHub.FlvCacheM.FCache.initTs, h]
+  · intro t rest h; simp [IpcHub.FlvCacheM.FCache.initTs, h]
 
 /-- non-vacuity / sanity of the cache specification on a concrete H.264 sequence -/
 example :
